@@ -504,7 +504,11 @@ class LoadJudge(Judge):
         else:
             cls = binder.cls(route['arg']['n'])
             expected = cls(**{p: vals[p] for p in given})
-            if not (r_arg == expected) or type(r_arg) is not cls:
+            try:
+                same = (r_arg == expected) and type(r_arg) is cls
+            except Exception:          # e.g. a required field of the argument was never set
+                same = False
+            if not same:
                 got = {p: getattr(r_arg, '_%s_value' % p, '?') for p in params}
                 want = {p: getattr(expected, '_%s_value' % p, '?') for p in params}
                 self.violation(None, 'request argument differs from the struct built from the parameters: got %r, expected %r: %s'
